@@ -1185,3 +1185,185 @@ Example C05_bare_reference_cycles :
     Some [(KS (of_string "a"), Leaf (SStr (of_string "$b"))); (KS (of_string "b"), Leaf (SStr (of_string "$a")));
           (KS (of_string "c"), Leaf (SStr (of_string "$a + 1")))].
 Proof. vm_compute. split; reflexivity. Qed.
+
+(* ================================================================================================== *)
+(* non-vacuity examples added after the reviewer's audit (Properties/C05_nv.v, 2026-10-01)         *)
+(* ================================================================================================== *)
+
+(* ==== non-vacuity instances obtained BY APPLYING the theorems above (added after review) ================== *)
+
+(* C05_resolve_terminates on the tables on which the unrepaired resolver looped (a chain through a list element back to
+   itself, two names that refer to each other, a name that refers to itself) and on a chain that ends in a list *)
+Example C05_resolve_terminates_nonvacuous :
+  let v1 := [(KS (of_string "a"), Leaf (SStr (of_string "$b[0]"))); (KS (of_string "b"), Leaf (SStr (of_string "$c")));
+             (KS (of_string "c"), Lst [Leaf (SStr (of_string "$b[0]"))])] in
+  let v2 := [(KS (of_string "b"), Leaf (SStr (of_string "$c"))); (KS (of_string "c"), Leaf (SStr (of_string "$b")));
+             (KS (of_string "s"), Leaf (SStr (of_string "$s")))] in
+  let v3 := [(KS (of_string "x"), Lst [Leaf (SInt 5); Leaf (SInt 6)]); (KS (of_string "ab"), Leaf (SStr (of_string "$x")));
+             (KS (of_string "abc"), Leaf (SStr (of_string "$ab")))] in
+  (resolve_reference v1 (of_string "$a") <> RFuel /\ resolve_reference v2 (of_string "$b") <> RFuel /\
+   resolve_reference v2 (of_string "$s") <> RFuel /\ resolve_reference v3 (of_string "$abc[1]") <> RFuel) /\
+  resolve_reference v1 (of_string "$a") = RNone /\ resolve_reference v2 (of_string "$b") = RNone /\
+  resolve_reference v2 (of_string "$s") = RNone /\ resolve_reference v3 (of_string "$abc[1]") = RVal (Leaf (SInt 6)).
+Proof.
+  intros v1 v2 v3. split.
+  - exact (conj (C05_resolve_terminates _ _) (conj (C05_resolve_terminates _ _) (conj (C05_resolve_terminates _ _) (C05_resolve_terminates _ _)))).
+  - vm_compute. repeat split; reflexivity.
+Qed.
+
+(* C05_loop_raise: the hypothesis is met by an ordinary document -- the expression "$x + 1" stored eleven keys deep: the
+   write-back of its value raises RecursionError (set_global_key's depth guard) -- and by the line-feed placeholder of
+   C05_never_fuel_condition (E_Fuel) *)
+Fixpoint ex_nest (n : nat) (t : tree) : tree := match n with O => t | S n' => Dict [(KS (of_string "k"), ex_nest n' t)] end.
+Example C05_loop_raise_nonvacuous :
+  let s := mkSD [(KS (of_string "x"), Leaf (SInt 5)); (KS (of_string "a"), ex_nest 10 (Leaf (SStr (ph_of 0))))] [] [] []
+                [(0%N, (of_string "$x + 1", ph_of 0))] in
+  let s' := mkSD [(KS (of_string "a"), Leaf (SStr [c_lf])); (KS (of_string "x"), Lst [Leaf (SStr [c_lf])])] [] [] []
+                [(0%N, (of_string "$x", [c_lf]))] in
+  eval_expressions s = Some (Raise E_Recursion) /\ (exists fuel ph v d, insert_result fuel ph v d = Raise E_Recursion) /\
+  eval_expressions s' = Some (Raise E_Fuel) /\ (exists fuel ph v d, insert_result fuel ph v d = Raise E_Fuel).
+Proof.
+  intros s s'.
+  assert (H : eval_expressions s = Some (Raise E_Recursion)) by (vm_compute; reflexivity).
+  assert (H' : eval_expressions s' = Some (Raise E_Fuel)) by (vm_compute; reflexivity).
+  exact (conj H (conj (C05_loop_raise s _ H) (conj H' (C05_loop_raise s' _ H')))).
+Qed.
+
+(* C05_unresolved_kept_one: one expression whose three references (a plain one, an indexed one, one to a name that exists
+   only inside a sub-dict) are undeclared; its placeholder -- the last six-digit id -- occurs twice, two keys deep (under a
+   string key and, inside a list, under an integer key); non-empty comment tables *)
+Example C05_unresolved_kept_one_nonvacuous :
+  let ph := ph_of 999999 in
+  let d := [(KS (of_string "a"), Leaf (SInt 3));
+            (KS (of_string "sub"), Dict [(KS (of_string "b"), Leaf (SStr ph)); (KI 2, Lst [Leaf (SStr ph); Leaf (SInt 1)])]);
+            (KS (of_string "l"), Lst [Leaf (SInt 5)])] in
+  let e := of_string "$zz + $yy[1] * 2 - $b" in
+  let lc := [(9%N, of_string "// nine")] in let bc := [(2%N, of_string "/* two */")] in
+  let s := mkSD d lc bc [] [(999999%N, (e, ph))] in
+  has_char c_dollar e = true /\
+  expr_refs_of e = [of_string "$zz"; of_string "$yy[1]"; of_string "$b"] /\
+  Forall (fun r => alookup (KS (ref_name r)) (variables_of s) = None) (expr_refs_of e) /\
+  eval_expressions s =
+  Some (match insert_result (S (count_leaves (Dict d))) ph (Leaf (SStr e)) (Dict d) with
+        | Ok (Dict d') => Ok (mkSD d' lc bc [] []) | Ok _ => Ok (mkSD d lc bc [] []) | Raise er => Raise er end) /\
+  insert_result (S (count_leaves (Dict d))) ph (Leaf (SStr e)) (Dict d) =
+  Ok (Dict [(KS (of_string "a"), Leaf (SInt 3));
+            (KS (of_string "sub"), Dict [(KS (of_string "b"), Leaf (SStr e)); (KI 2, Lst [Leaf (SStr e); Leaf (SInt 1)])]);
+            (KS (of_string "l"), Lst [Leaf (SInt 5)])]).
+Proof.
+  intros ph d e lc bc s.
+  assert (H1 : has_char c_dollar e = true) by (vm_compute; reflexivity).
+  assert (E : expr_refs_of e = [of_string "$zz"; of_string "$yy[1]"; of_string "$b"]) by (vm_compute; reflexivity).
+  assert (H2 : Forall (fun r => alookup (KS (ref_name r)) (variables_of s) = None) (expr_refs_of e)).
+  { rewrite E. repeat (constructor; [vm_compute; reflexivity|]). constructor. }
+  refine (conj H1 (conj E (conj H2 (conj (C05_unresolved_kept_one d lc bc [] 999999%N e ph H1 H2) _)))).
+  vm_compute. reflexivity.
+Qed.
+
+(* C05_denote_order: the eight-entry document ex_doc_w and its reversal (every use before / after its declaration the other
+   way round); defined and undefined names alike *)
+Example C05_denote_order_nonvacuous :
+  let d := ex_doc_w in let d' := rev ex_doc_w in
+  NoDup (map fst d) /\ Permutation d d' /\
+  (forall x, denote d x = denote d' x) /\
+  map (denote d) (map fst d) = [Some (-18); Some 3; Some 9; Some 9; Some (-4); Some 16; None; None]%Z /\
+  map fst d' = map of_string ["w"; "u"; "m"; "n"; "e"; "ab"; "a"; "c"]%string.
+Proof.
+  intros d d'.
+  assert (H1 : NoDup (map fst d)) by exact (proj1 ex_doc_w_ok).
+  assert (H2 : Permutation d d') by apply Permutation_rev.
+  refine (conj H1 (conj H2 (conj (fun x => C05_denote_order d d' x H1 H2) _))). vm_compute. split; reflexivity.
+Qed.
+
+(* C05_flat_result on ex_doc_w (six entries that evaluate, one that is written back partly substituted, one that keeps its
+   text) with non-empty comment tables: the theorem gives the round number m and the result; compared with the computed
+   result it says what [final_data] is *)
+Example C05_flat_result_applied :
+  let d := ex_doc_w in let lc := [(9%N, of_string "// nine")] in let bc := [(2%N, of_string "/* two */")] in
+  fdoc_ok d /\ names_free d /\
+  exists m, (forall n x v, know d n x = Some v -> know d (S (S m)) x = Some v) /\
+    eval_expressions (flat_sdict d lc bc []) = Some (Ok (mkSD (final_data (know d (S m)) (know d (S (S m))) d) lc bc [] [])) /\
+    final_data (know d (S m)) (know d (S (S m))) d =
+      [(KS (of_string "c"), Leaf (SInt (-18))); (KS (of_string "a"), Leaf (SInt 3));
+       (KS (of_string "ab"), Leaf (SInt 9)); (KS (of_string "e"), Leaf (SInt 9));
+       (KS (of_string "n"), Leaf (SInt (-4))); (KS (of_string "m"), Leaf (SInt 16));
+       (KS (of_string "u"), Leaf (SStr (of_string "$zz + 3 ")));
+       (KS (of_string "w"), Leaf (SStr (of_string "$zz * $yy ")))].
+Proof.
+  intros d lc bc. refine (conj ex_doc_w_ok (conj ex_doc_w_free _)).
+  destruct (C05_flat_result d lc bc [] ex_doc_w_ok ex_doc_w_free) as [m [Hm He]].
+  exists m. split; [exact Hm|]. split; [exact He|].
+  assert (Hc : eval_expressions (flat_sdict d lc bc []) =
+    Some (Ok (mkSD [(KS (of_string "c"), Leaf (SInt (-18))); (KS (of_string "a"), Leaf (SInt 3));
+       (KS (of_string "ab"), Leaf (SInt 9)); (KS (of_string "e"), Leaf (SInt 9));
+       (KS (of_string "n"), Leaf (SInt (-4))); (KS (of_string "m"), Leaf (SInt 16));
+       (KS (of_string "u"), Leaf (SStr (of_string "$zz + 3 ")));
+       (KS (of_string "w"), Leaf (SStr (of_string "$zz * $yy ")))] lc bc [] []))) by (vm_compute; reflexivity).
+  rewrite Hc in He.
+  pose proof (f_equal (fun o => match o with Some (Ok s) => sd_data s | _ => [] end) He) as P.
+  cbv beta iota delta [sd_data] in P. symmetry. exact P.
+Qed.
+
+(* C05_peG_is_pe: a token list with unary minus, nested parentheses and both operators, with ample fuel, with too little
+   fuel, a syntax error, a call *)
+Example C05_peG_is_pe_nonvacuous :
+  let ts := [TMinus; TLp; TInt 1; TPlus; TInt 2; TRp; TStar; TLp; TInt 3; TMinus; TMinus; TInt 4; TRp; TStar; TInt 2] in
+  elex 40 (of_string "-(1 + 2) * (3 - -4) * 2") = Some ts /\
+  (peG 0 30 0 ts = pe 30 0 ts /\ peG 0 5 0 ts = pe 5 0 ts /\ peG 0 30 0 [TInt 1; TPlus] = pe 30 0 [TInt 1; TPlus] /\
+   peG 0 30 0 [TInt 2; TLp; TInt 3; TRp] = pe 30 0 [TInt 2; TLp; TInt 3; TRp]) /\
+  pe 30 0 ts = POk (-42) [] /\ pe 5 0 ts = POutside /\ pe 30 0 [TInt 1; TPlus] = PSyntax /\
+  pe 30 0 [TInt 2; TLp; TInt 3; TRp] = POutside.
+Proof.
+  intros ts. split; [vm_compute; reflexivity|]. split.
+  - exact (conj (C05_peG_is_pe _ _ _) (conj (C05_peG_is_pe _ _ _) (conj (C05_peG_is_pe _ _ _) (C05_peG_is_pe _ _ _)))).
+  - vm_compute. repeat split; reflexivity.
+Qed.
+
+(* C05_insert_terminates_leaf: three leaves of the data contain the placeholder (one of them inside a list, one in a
+   sub-dict); the value inserted is a string leaf that itself contains the placeholder (one round, then the loop stops),
+   and an integer leaf (every occurrence is overwritten) *)
+Example C05_insert_terminates_leaf_nonvacuous :
+  let ph := ph_of 7 in
+  let d := Dict [(KS (of_string "a"), Leaf (SStr ph)); (KS (of_string "l"), Lst [Leaf (SInt 1); Leaf (SStr (of_string "x" ++ ph))]);
+                 (KS (of_string "s"), Dict [(KS (of_string "b"), Leaf (SStr ph))])] in
+  let w := SStr (of_string "x" ++ ph ++ of_string "y") in
+  wf d = true /\ bad ph d = 3%nat /\
+  insert_result (S (count_leaves d)) ph (Leaf w) d <> Raise E_Fuel /\
+  insert_result (S (count_leaves d)) ph (Leaf (SInt 7)) d <> Raise E_Fuel /\
+  insert_result (S (count_leaves d)) ph (Leaf w) d =
+    Ok (Dict [(KS (of_string "a"), Leaf w); (KS (of_string "l"), Lst [Leaf (SInt 1); Leaf (SStr (of_string "x" ++ ph))]);
+              (KS (of_string "s"), Dict [(KS (of_string "b"), Leaf (SStr ph))])]) /\
+  insert_result (S (count_leaves d)) ph (Leaf (SInt 7)) d =
+    Ok (Dict [(KS (of_string "a"), Leaf (SInt 7)); (KS (of_string "l"), Lst [Leaf (SInt 1); Leaf (SInt 7)]);
+              (KS (of_string "s"), Dict [(KS (of_string "b"), Leaf (SInt 7))])]).
+Proof.
+  intros ph d w. assert (H : wf d = true) by (vm_compute; reflexivity).
+  refine (conj H (conj _ (conj (C05_insert_terminates_leaf ph w d H) (conj (C05_insert_terminates_leaf ph (SInt 7) d H) (conj _ _)))));
+  vm_compute; reflexivity.
+Qed.
+
+(* C05_denote_bare in the flattened document of ex_p: e is the bare reference $c, c the bare indexed reference $m[1] (m a list
+   two dicts deep), w the bare reference " $u " (written with blanks) to an expression: the value is handed down the chain *)
+Example C05_denote_bare_nonvacuous :
+  let d := psem ex_p in
+  NoDup (map fst d) /\
+  In (of_string "e", FExp 7 g_tight (AVar (of_string "c"))) d /\ In (of_string "c", FExp 5 g_tight (AVar (of_string "m[1]"))) d /\
+  In (of_string "w", FExp 4 ex_gb (AVar (of_string "u"))) d /\
+  denote d (of_string "e") = Some 9%Z /\ denote d (of_string "w") = Some 54%Z /\
+  denote d (of_string "c") = Some 9%Z /\ denote d (of_string "m[1]") = Some 9%Z /\ denote d (of_string "u") = Some 54%Z.
+Proof.
+  intros d.
+  assert (H0 : NoDup (map fst d)) by exact (proj1 (proj2 (proj2 (proj2 ex_p_ok)))).
+  assert (I1 : In (of_string "e", FExp 7 g_tight (AVar (of_string "c"))) d)
+    by (unfold d; ex_p_unfold; cbn [psem flat_map app]; unfold ex_v; cbn; tauto).
+  assert (I2 : In (of_string "c", FExp 5 g_tight (AVar (of_string "m[1]"))) d)
+    by (unfold d; ex_p_unfold; cbn [psem flat_map app]; unfold ex_v; cbn; tauto).
+  assert (I3 : In (of_string "w", FExp 4 ex_gb (AVar (of_string "u"))) d)
+    by (unfold d; ex_p_unfold; cbn [psem flat_map app]; unfold ex_v; cbn; tauto).
+  assert (D1 : denote d (of_string "e") = Some 9%Z) by (vm_compute; reflexivity).
+  assert (D2 : denote d (of_string "w") = Some 54%Z) by (vm_compute; reflexivity).
+  pose proof (C05_denote_bare d _ _ _ _ _ H0 I1 D1) as D3.
+  pose proof (C05_denote_bare d _ _ _ _ _ H0 I2 D3) as D4.
+  pose proof (C05_denote_bare d _ _ _ _ _ H0 I3 D2) as D5.
+  exact (conj H0 (conj I1 (conj I2 (conj I3 (conj D1 (conj D2 (conj D3 (conj D4 D5)))))))).
+Qed.
